@@ -29,26 +29,26 @@ theorem PB.parseExprWith {fold : FoldMode} {toks : List Tok} {res : Res Expr}
 
 -- ------------------------------------------------------------ parseBp
 theorem PB.of_prefix {fold : FoldMode} {bp : Nat} {toks rest r : List Tok} {op : PrefixOp} {rhs : Expr}
-    {res : Res Expr} (hp : prefixOp? fold toks = some (op, rest))
+    {res : Res Expr} (hs : skipNl toks = toks) (hp : prefixOp? fold toks = some (op, rest))
     (h1 : PB fold op.prec rest (.ok rhs r)) (h2 : LP fold bp (Expr.unop op rhs) r res) :
     PB fold bp toks res := by
   obtain ⟨_, f1, e1⟩ := h1
   obtain ⟨hne, f2, e2⟩ := h2
   refine ⟨hne, max f1 f2 + 1, ?_⟩
-  rw [parseBp_succ, hp]
+  rw [parseBp_succ, hs, hp]
   simp only
   rw [parseBp_lift e1 ok_ne_fuel (Nat.le_max_left f1 f2)]
   simp only
   exact loop_lift e2 hne (Nat.le_max_right f1 f2)
 
 theorem PB.of_term {fold : FoldMode} {bp : Nat} {toks r : List Tok} {lhs : Expr}
-    {res : Res Expr} (hp : prefixOp? fold toks = none)
+    {res : Res Expr} (hs : skipNl toks = toks) (hp : prefixOp? fold toks = none)
     (h1 : PT fold toks (.ok lhs r)) (h2 : LP fold bp lhs r res) :
     PB fold bp toks res := by
   obtain ⟨_, f1, e1⟩ := h1
   obtain ⟨hne, f2, e2⟩ := h2
   refine ⟨hne, max f1 f2 + 1, ?_⟩
-  rw [parseBp_succ, hp]
+  rw [parseBp_succ, hs, hp]
   simp only
   rw [parseTerm_lift e1 ok_ne_fuel (Nat.le_max_left f1 f2)]
   simp only
